@@ -185,6 +185,10 @@ OnCrash ==   \* the server process panicked while serving this case: nothing out
   /\ Verdict("C03", "server-crash", E.what)
   /\ UNCHANGED <<sent, replied, away, answers, called, answeredN, live, maybe, nclosed, cclosed>>
 
+OnBystander ==   \* a request on another connection, driven with this connection's goroutines paused
+  /\ (~E.ok => Verdict(IF cclosed THEN "C11" ELSE "C08", "bystander-disturbed", E.what))
+  /\ UNCHANGED <<sent, replied, away, answers, called, answeredN, live, maybe, nclosed, cclosed>>
+
 OnLeftover ==
   /\ Verdict("C11", "goroutines-left", E.what)
   /\ UNCHANGED <<sent, replied, away, answers, called, answeredN, live, maybe, nclosed, cclosed>>
@@ -208,6 +212,7 @@ Next ==
                   [] E.ev = "end" -> OnEnd
                   [] E.ev = "leftover" -> OnLeftover
                   [] E.ev = "crash" -> OnCrash
+                  [] E.ev = "bystander" -> OnBystander
                   [] OTHER -> Skip
   \/ /\ i = Len(Ext) + 1 /\ ~done /\ done' = TRUE
      /\ PrintT(<<"CONSUMED", Len(Ext)>>)
